@@ -1493,7 +1493,8 @@ def evaluate__implicit_timezone(self: XPathFunction, context: ta.ContextType = N
     if context is not None and context.timezone is not None:
         return DayTimeDuration.fromtimedelta(context.timezone.offset)
     else:
-        return DayTimeDuration.fromtimedelta(datetime.timedelta(seconds=time.timezone))
+        # time.timezone counts the seconds west of UTC
+        return DayTimeDuration.fromtimedelta(datetime.timedelta(seconds=-time.timezone))
 
 
 ###
